@@ -263,4 +263,73 @@ theorem musLoop_ok (cap : Nat) (input : List Nat) :
       rw [push_ok _ _ _ (by omega)]
       exact ⟨_, rfl, by simp⟩
 
+/-! ## the stored stream fits the bound -/
+
+theorem max_closed (n : Nat) (hn : n < 2 ^ 54) :
+    maxCompressedSize n = if n = 0 then 17 else if n < 2 ^ 14 then n + 22 else n + 4 * (n / 2 ^ 14) + 23 := by
+  obtain ⟨t, ht, h54, hr⟩ := maxResult_eq n (by omega)
+  have h54 := h54 hn
+  simp only [maxCompressedSize, hr, lit, litsMax, BV.Gen.lits_MaxCompressedSize, List.getD_cons_zero,
+    List.getD_cons_succ, W64]
+  by_cases h0 : n = 0
+  · simp [h0]
+  · simp only [h0, if_false]
+    have hlt : n + (2 + 4 * (n / 2 ^ 14) + t + 1) < 2 ^ 64 - 16 := by omega
+    rw [Nat.mod_eq_of_lt (by omega)]
+    have : ¬ (n + (2 + 4 * (n / 2 ^ 14) + t + 1) < n) := by omega
+    simp only [this, if_false]
+    rw [Nat.mod_eq_of_lt (by omega)]
+    by_cases h14 : n < 2 ^ 14
+    · have : t = 3 := h54.mpr h14
+      simp only [h14, if_true]; omega
+    · have : t = 4 := by rcases ht with h | h; exact absurd (h54.mp h) h14; exact h
+      simp only [h14, if_false]; omega
+
+theorem mus_fits (x : List Nat) (cap : Nat) (hn : x.length < 2 ^ 54) (hcap : maxCompressedSize x.length ≤ cap) :
+    ∃ out, makeUncompressedStream x x.length cap = ok out ∧ out.length ≤ maxCompressedSize x.length ∧
+      out.length = if x.length = 0 then 1 else 3 + storedBody x.length := by
+  have hm := max_closed x.length hn
+  simp only [makeUncompressedStream, lit, litsMus, BV.Gen.lits_MakeUncompressedStream, List.getD_cons_zero,
+    List.getD_cons_succ]
+  by_cases h0 : x.length = 0
+  · have h17 : maxCompressedSize x.length = 17 := by rw [hm]; simp [h0]
+    simp only [h0, if_true]
+    rw [push_ok _ _ _ (by simp; omega)]
+    exact ⟨_, rfl, by rw [← h0, h17]; decide, by simp⟩
+  · simp only [h0, if_false] at hm ⊢
+    have hb := storedBody_le x.length
+    simp only [h0, if_false] at hb
+    have hfit : 3 + storedBody x.length ≤ maxCompressedSize x.length := by
+      rw [hm]
+      by_cases h14 : x.length < 2 ^ 14
+      · simp only [h14, if_true]
+        rw [storedBody_small _ (by omega) (by omega)]; omega
+      · simp only [h14, if_false]
+        have : x.length / 2 ^ 24 ≤ x.length / 2 ^ 14 := by omega
+        omega
+    rw [push_ok _ _ _ (by simp; omega)]
+    simp only [Out.bind]
+    rw [push_ok _ _ _ (by simp; omega)]
+    simp only []
+    obtain ⟨r, h1, h2⟩ := musLoop_ok cap x x.length 0 ([] ++ [33] ++ [3]) (by omega) (by simp; omega)
+    refine ⟨r, h1, ?_, ?_⟩
+    · rw [h2]; simp; omega
+    · rw [h2]; simp; omega
+
+/-- a concrete stored stream (non-vacuity) -/
+theorem stored_example : makeUncompressedStream [1, 2, 3] 3 (maxCompressedSize 3) = ok [0x21, 0x03, 0x10, 0x00, 0x08, 1, 2, 3, 0x03] := by
+  have hm : maxCompressedSize 3 = 25 := by decide
+  rw [hm]
+  simp only [makeUncompressedStream, lit, litsMus, BV.Gen.lits_MakeUncompressedStream, List.getD_cons_zero,
+    List.getD_cons_succ]
+  simp only [show ¬ (3 = 0) by decide, if_false]
+  rw [push_ok _ _ _ (by decide)]
+  simp only [Out.bind]
+  rw [push_ok _ _ _ (by decide)]
+  simp only []
+  rw [musLoop_step _ _ _ _ _ (by decide) (by decide) (by decide)]
+  have : 3 - chunkOf 3 = 0 := by decide
+  rw [this, musLoop_zero, push_ok _ _ _ (by decide)]
+  decide
+
 end BV.Stored
